@@ -73,6 +73,7 @@ class Prop(object):
         u.append(('time', {}))
         u.append(('count', {}))
         u.append(('grow', {}))
+        u.append(('reuse', {}))
         for kname in ('ecdsa_p384a', 'ecdsa_p521a', 'ed25519a', 'rsa1024a'):
             u.append(('growkey', {'key': kname}))
         return u
@@ -463,6 +464,48 @@ class Prop(object):
             if oc != 'ok':
                 r.viol('count', {'kind': oc}, {}, 'coded count %d must decode to %d: %s' % (c, want, info))
         r.samples.append({'codec': 'S2K count', 'coded': 255, 'octets': wire.s2k_count(255)})
+        return r
+
+    def c_reuse(self, case):
+        """One subpacket-header object decoding one subpacket header after the other (how a lister walks a subpacket area): every ordered pair of a set
+        of headers that differ in length form, type and critical bit decodes, the second time, to what a fresh object makes of the second header."""
+        from pgpy.packet.subpackets.types import Header
+        r = Res()
+        heads = []
+        for L in (1, 2, 191, 192, 8383, 8384, 70000):
+            for w in (1, 2, 5):
+                try:
+                    enc = wire.sub_len_encode(L, w)
+                except (wire.WireError, ValueError, OverflowError):
+                    continue
+                for t in (2, 0x82, 27, 0x9b, 100, 0xe4):
+                    heads.append((L, t & 0x7f, bool(t & 0x80), bytes(enc) + bytes([t])))
+        heads = heads[::3]
+
+        def view(h):
+            return (h.length, int(h.typeid), bool(h.critical))
+        for (la, ta, ca, ea) in heads:
+            for (lb, tb, cb, eb) in heads:
+                if case.get('only') is not None and case['only'] != [ea.hex(), eb.hex()]:
+                    continue
+                r.states += 1
+                r.transitions += 2
+                try:
+                    h = Header()
+                    h.parse(bytearray(ea + b'rest'))
+                    first = view(h)
+                    h.parse(bytearray(eb + b'rest'))
+                    second = view(h)
+                    fresh = Header()
+                    fresh.parse(bytearray(eb + b'rest'))
+                    oc = 'ok' if first == (la, ta, ca) and second == (lb, tb, cb) and view(fresh) == (lb, tb, cb) else 'mismatch'
+                    info = 'first %r (octets say %r), second %r (octets say %r)' % (first, (la, ta, ca), second, (lb, tb, cb))
+                except Exception as e:
+                    oc, info = 'exception', repr(e)
+                r.outcomes['reuse-' + oc] += 1
+                if oc != 'ok':
+                    r.viol('sublen.reuse', {'kind': oc}, dict(case, only=[ea.hex(), eb.hex()]), 'one subpacket header object reading %s then %s: %s' % (ea.hex(), eb.hex(), info))
+        r.samples.append({'codec': 'subpacket header, object re-used', 'headers': len(heads)})
         return r
 
     def c_growkey(self, case):
